@@ -175,7 +175,7 @@ func tnAlnum(c byte) bool {
 }
 
 func tnInAlphabet(c byte) bool {
-	return tnAlnum(c) || strings.IndexByte("-_.*+?()[]|^$\\,: ", c) >= 0
+	return tnAlnum(c) || strings.IndexByte("-_.*+?()[]|^$\\{},: ", c) >= 0
 }
 
 func tnAllAlpha(s string) bool {
@@ -189,44 +189,10 @@ func tnAllAlpha(s string) bool {
 
 func tnTblOk(s string) bool { return s != "" && tnAllAlpha(s) }
 
-type tnTok struct {
-	esc bool
-	c   byte
-}
-
-// element of the comma list that contains a `*`: is the regular expression the code builds inside the fragment?
-func tnElemInFragment(elem string) bool {
-	if !tnAllAlpha(elem) {
-		return false
-	}
-	src := "^" + strings.ReplaceAll(elem, "*", ".*") + "$"
-	var toks []tnTok
-	for i := 0; i < len(src); i++ {
-		if src[i] == '\\' {
-			if i+1 >= len(src) {
-				return true // trailing backslash: compile error, modelled
-			}
-			toks = append(toks, tnTok{true, src[i+1]})
-			i++
-		} else {
-			toks = append(toks, tnTok{false, src[i]})
-		}
-	}
-	for i, t := range toks {
-		if t.esc {
-			if tnAlnum(t.c) {
-				return false
-			}
-			continue
-		}
-		if i+1 < len(toks) && !toks[i+1].esc {
-			d := toks[i+1].c
-			if (t.c == '(' && d == '?') || (t.c == '[' && d == ':') {
-				return false
-			}
-		}
-	}
-	return true
+// table names and alias targets are index names: additionally a simple file name (the code rejects
+// "", ".", ".." and names with a path separator since the path-safety fix)
+func tnIdxOk(s string) bool {
+	return tnTblOk(s) && !strings.Contains(s, "\\") && s != "." && s != ".."
 }
 
 func tnStrip(expr string) string {
@@ -236,17 +202,8 @@ func tnStrip(expr string) string {
 	return expr
 }
 
-func tnExprInFragment(expr string) bool {
-	if !tnAllAlpha(expr) {
-		return false
-	}
-	for _, e := range strings.Split(tnStrip(expr), ",") {
-		if strings.Contains(e, "*") && !tnElemInFragment(e) {
-			return false
-		}
-	}
-	return true
-}
+// expressions: modelled alphabet only (every wildcard element is quoted by the code)
+func tnExprInFragment(expr string) bool { return tnAllAlpha(expr) }
 
 // SPEC glob: `*` matches any string, everything else is literal (independent of the model and of the code)
 func tnGlob(p, s string) bool {
@@ -360,12 +317,12 @@ func tnExecExpand(a []string) Result {
 	}
 	inFrag := tnExprInFragment(expr)
 	for _, t := range tables {
-		inFrag = inFrag && tnTblOk(t.name)
+		inFrag = inFrag && tnIdxOk(t.name)
 	}
 	for _, x := range aliases {
 		inFrag = inFrag && tnTblOk(x.alias)
 		for _, t := range x.targets {
-			inFrag = inFrag && tnTblOk(t)
+			inFrag = inFrag && tnIdxOk(t)
 		}
 	}
 	if !inFrag {
@@ -489,7 +446,7 @@ func tnExecGlob(a []string) Result {
 	if !ok1 || !ok2 {
 		return Result{Out: "bad-op"}
 	}
-	if !tnExprInFragment(pat) || !tnTblOk(name) {
+	if !tnExprInFragment(pat) || !tnIdxOk(name) {
 		return Result{Out: "out-of-fragment", Tags: []string{"out-of-fragment"}}
 	}
 	tnSetup([]tnTable{{0, name}}, nil)
@@ -584,7 +541,7 @@ func tnExecSel(a []string) Result {
 	var ds []tnTable
 	for _, s := range dl {
 		t, ok := tnParseTable(s)
-		if !ok {
+		if !ok || t.name == "" {
 			return Result{Out: "bad-op"}
 		}
 		ds = append(ds, t)
@@ -711,9 +668,9 @@ func tnExecDel(a []string) Result {
 		}
 		tables = append(tables, t)
 	}
-	inFrag := tnTblOk(name)
+	inFrag := tnIdxOk(name)
 	for _, t := range tables {
-		inFrag = inFrag && tnTblOk(t.name)
+		inFrag = inFrag && tnIdxOk(t.name)
 	}
 	if !inFrag {
 		return Result{Out: "out-of-fragment", Tags: []string{"out-of-fragment"}}
@@ -761,13 +718,13 @@ func tnExecDel(a []string) Result {
 
 var tnPool = []string{
 	"logs", "logs2", "logs.2024", "logsX2024", "logs-2024", "logs_2024", "log", "l", "ab", "aab", "a.b", "a+b", "a?b", "a|b",
-	"app(1)", "x[1]", "x1", "m^2", "cost$", "back\\slash", "traces", "red-traces", "service-dependency", ".kibana_1", "my.kibana",
+	"app(1)", "x[1]", "x1", "m^2", "cost$", "a{2}", "traces", "red-traces", "service-dependency", ".kibana_1", "my.kibana",
 	"a b", "prod_logs", "LOGS", "a*b", "logs.2", "2024", "X", "metrics.cpu", "metrics-cpu",
 }
 
-var tnAliasPool = []string{"all", "al", "logs", "cur", "cur.logs", "logs-alias", "a.l", "shared"}
+var tnAliasPool = []string{"all", "al", "logs", "cur", "cur.logs", "logs-alias", "a.l", "shared", "back\\slash", "."}
 
-const tnAlphabet = "abclogsX012.-_*+?()[]|^$\\,: "
+const tnAlphabet = "abclogsX012.-_*+?()[]|^$\\{},: "
 
 func tnRandName(r *rand.Rand) string {
 	if r.Intn(8) != 0 {
@@ -777,6 +734,12 @@ func tnRandName(r *rand.Rand) string {
 	b := make([]byte, n)
 	for i := range b {
 		b[i] = tnAlphabet[r.Intn(len(tnAlphabet)-3)] // no , : space in random names
+		if b[i] == '\\' {
+			b[i] = '$'
+		}
+	}
+	if s := string(b); s == "." || s == ".." {
+		return "a.b"
 	}
 	return string(b)
 }
@@ -795,7 +758,7 @@ func tnWildFrom(r *rand.Rand, name string) string {
 		p = p[:k] + "*" + p[k:]
 	case 1: // a metacharacter somewhere
 		k := r.Intn(len(p) + 1)
-		p = p[:k] + string(".+?|()[]^$\\"[r.Intn(11)]) + p[k:]
+		p = p[:k] + string(".+?|()[]^$\\{}"[r.Intn(13)]) + p[k:]
 	case 2: // replace a character by `.` or `?`
 		if len(p) > 0 {
 			k := r.Intn(len(p))
@@ -851,7 +814,7 @@ func tnRandElem(r *rand.Rand, tables []tnTable, aliases []tnAlias, org int64) st
 	case 10:
 		return tnRandName(r)
 	case 11:
-		return []string{"*", "**", "l*", "*s", "*.*", "logs*", "logs.*", "logs.2*", "*2024", "tr*", "traces*", "*traces", "red-*", "*kibana*", "a*b", "a.b*", "*|*", "*\\", "\\*", "[a-l]*", "[^l]*", "(a|l)*", "l+*", "lo?*", "*$", "^*"}[r.Intn(26)]
+		return []string{"*", "**", "l*", "*s", "*.*", "logs*", "logs.*", "logs.2*", "*2024", "tr*", "traces*", "*traces", "red-*", "*kibana*", "a*b", "a.b*", "*|*", "*\\", "\\*", "[a-l]*", "[^l]*", "(a|l)*", "l+*", "lo?*", "*$", "^*", "a{2}*", "(?i)l*", "\\d*", "[[:alpha:]]*", "l{1,2}*"}[r.Intn(31)]
 	default: // random string over the alphabet with a star
 		n := 1 + r.Intn(7)
 		b := make([]byte, n)
@@ -1044,7 +1007,11 @@ func tnGenSel(r *rand.Rand) string {
 	}
 	if r.Intn(3) == 0 {
 		for i, n := 0, 1+r.Intn(2); i < n; i++ {
-			ds = append(ds, fmt.Sprintf("%d:%s", r.Intn(3), tnHex(pick())))
+			d := pick()
+			if d == "" {
+				d = "logs"
+			}
+			ds = append(ds, fmt.Sprintf("%d:%s", r.Intn(3), tnHex(d)))
 		}
 	}
 	return fmt.Sprintf("tn sel %d %d %d N=%s R=%s U=%s D=%s", org, qlo, qhi, strings.Join(names, ","), strings.Join(rs, ","), strings.Join(us, ","), strings.Join(ds, ","))
@@ -1081,7 +1048,7 @@ func genTenant(r *rand.Rand, n int, tier string) []string {
 		case k < 97:
 			out = append(out, tnGenDel(r))
 		case k < 98: // outside the modelled fragment
-			out = append(out, fmt.Sprintf("tn glob %s %s", tnHex([]string{"a{2}*", "(?i)l*", "\\d*", "[[:alpha:]]*", "l*/x"}[r.Intn(5)]), tnHex("logs")))
+			out = append(out, fmt.Sprintf("tn glob %s %s", tnHex([]string{"a/b*", "l*#", "\"l*\"", "l*\tx", "l*/x"}[r.Intn(5)]), tnHex("logs")))
 		default: // malformed
 			out = append(out, []string{"tn", "tn expand 0 1 zz T= A=", "tn glob 6c", "tn sel 0 1 2 N= R=1:0:6c:1 U= D=", "tn del 9 6c T=", "tn expand 7 0 6c T= A=", "tn frob", "tn sel 0 1 2 N= R=1:0:6c:1:2,1:0:6c:1:2 U= D="}[r.Intn(8)])
 		}
